@@ -49,6 +49,7 @@ Inductive attack :=
 | ANonce (k : N)                (* another nonce *)
 | AKey                          (* another issuer key *)
 | AAlter (pos : nat) (x : N)    (* proof byte pos XOR x *)
+| APrefix (pos : nat) (x : N)   (* byte pos of the keyset's output prefix XOR x *)
 | AForge (fam : N) (cR : list nat) (sup : list N) (pads : list nat).
    (* a structurally crafted proof (family fam, see harness/c17/forge.go) whose payload reveals cR ++ pads,
       presented with the messages sup *)
@@ -56,6 +57,7 @@ Inductive attack :=
 Record case := {
   c_msgs : list N; c_R : list nat; c_nonce : N; c_key : N;
   c_payload : list N; c_len : N; c_proof : list N; c_intact : bool;
+  c_kind : prefix_kind; c_keypfx : list N; c_pfx : list N;   (* Tink output prefix type, prefix of signature / of proof *)
   c_tr : list (list nat * nat * list N);   (* padding bits, extra messages, observed challenge-input labels *)
   c_att : list (attack * verdict) }.
 
@@ -142,6 +144,9 @@ Definition check_case (c : case) : bool :=
   end &&
   N.eqb (c_len c) (expected_len n hidden) &&
   Bool.eqb (c_intact c) (list_N_eqb (proof_after_verify Fixed (c_proof c)) (c_proof c)) &&
+  (* the derived proof carries the signing key's output prefix *)
+  list_N_eqb (c_pfx c) (c_keypfx c) &&
+  Nat.eqb (length (c_keypfx c)) (match c_kind c with PRaw => 0 | _ => 5 end) &&
   (* the bytes the verifier hashes into the challenge, point by point *)
   forallb (fun '(pads, extra, labels) =>
              list_N_eqb labels (label_transcript n (idx_from 0 mask) pads (nrev + extra)%nat)) (c_tr c) &&
@@ -179,6 +184,10 @@ Definition check_case (c : case) : bool :=
           | ASupplied l => zverify Fixed x pf nonce (map m_of l)
           | ANonce k => zverify Fixed x pf (nonce_of (c_nonce c + 1 + k)) rv
           | AKey => zverify Fixed (key_of (c_key c + 1000)) pf nonce rv
+          | APrefix pos xm =>
+              (* the wrapper on (altered prefix ++ proof); the inner verifier would see the honest proof *)
+              wrapped_verify (c_kind c) (c_keypfx c) (alter pos xm (c_pfx c) ++ c_payload c)
+                             (fun _ => zverify Fixed x pf nonce rv)
           | AForge fam cR sup pads =>
               zverify Fixed x
                 (forge fam x pf (zmix seed 1) (zmix seed 4) (fun i => zmix seed (N.of_nat i + 10))
